@@ -169,18 +169,24 @@ def load_known():
 		return json.load(fh).get("findings", [])
 
 
-ENV_VARIANTS = [({"VERIF_DEFAULT_DTYPE": "float64"}, 5)]
+ENV_VARIANTS = [({"VERIF_DEFAULT_DTYPE": "float64"}, 5, 4),
+	({"MALLOC_PERTURB_": "90"}, 7, 1), ({"MALLOC_PERTURB_": "165"}, 7, 3)]
 
 
 def add_env_variants(mod, units):
-	"""Process-wide settings a caller may legitimately have changed: every
-	n-th unit of the plan is executed a second time in a worker with that
-	setting (module attribute ENV_VARIANTS overrides the default list;
-	[] switches it off)."""
+	"""Process-wide settings that must not matter: every n-th unit of the
+	plan is executed again in a worker with that setting (module attribute
+	ENV_VARIANTS overrides the default list; [] switches it off).
+	  VERIF_DEFAULT_DTYPE  the caller has changed torch's default dtype
+	  MALLOC_PERTURB_      glibc fills every malloc'ed and freed block with a
+	                       byte pattern: results that depend on uninitialised
+	                       or out-of-bounds heap reads change with the value
+	                       (a poor man's memory sanitizer for the compiled
+	                       numba kernels and the torch/numpy buffers)."""
 	out = list(units)
-	for env, every in getattr(mod, "ENV_VARIANTS", ENV_VARIANTS):
+	for env, every, off in getattr(mod, "ENV_VARIANTS", ENV_VARIANTS):
 		for i, u in enumerate(units):
-			if i % every == every - 1 or len(units) < every and i == 0:
+			if i % every == off % every or len(units) <= off and i == 0:
 				u2 = dict(u)
 				u2["env"] = dict(u.get("env") or {}, **env)
 				out.append(u2)
